@@ -1,9 +1,9 @@
 # World harness: drives the REAL fake_trx objects (FakeTRX, BurstForwarder, TRXList,
-# FakePM, CTRLInterfaceTRX, DATAInterface, CLCKGen.send_clck_ind) in-process, wired by the
-# real Application.append_trx / append_child_trx, with the environment replaced from outside:
+# FakePM, CTRLInterfaceTRX, DATAInterface, CLCKGen) in-process, created and wired by the REAL
+# Application.__init__ from a command line (-R/-r/-P/-p/--trx), with the environment replaced from outside:
 #   * udp_link.socket  -> in-memory sockets (record every sendto, serve injected datagrams)
-#   * clck_gen.threading.Thread -> inert thread object (start()/stop() logic runs, no OS thread);
-#     ticks are delivered by calling the real CLCKGen.send_clck_ind()
+#   * clck_gen.threading -> the REAL CLCKGen._worker loop runs in its own OS thread, in lock step with the harness
+#     (StepEvent/StepThread below): op `T` releases exactly one iteration of the loop; clck_gen.time -> constant clock
 #   * fake_trx.random.randint / fake_pm.randint -> deterministic draw function shared with the model
 #   * ctrl_if.time.sleep -> no-op
 # Line protocol (one whole history per line, stateless):
@@ -19,8 +19,6 @@ import sys, types, logging
 sys.path.insert(0, sys.argv[1])
 sys.path.insert(0, __file__.rsplit("/", 1)[0])
 sys.dont_write_bytecode = True
-import appinit
-APPINIT = appinit.extract(sys.argv[1])
 
 import udp_link, clck_gen, ctrl_if, fake_pm, fake_trx, threading
 from fake_trx import Application, FakeTRX
@@ -56,12 +54,90 @@ fake_socket_mod = types.SimpleNamespace(socket=FakeSocket, AF_INET=2, SOCK_DGRAM
 udp_link.socket = fake_socket_mod
 
 class FakeThread:
+    """inert thread (USE_WORKER = False): start()/stop() logic runs, no OS thread; ticks = direct send_clck_ind() calls"""
     def __init__(self, target=None): self.alive = False; self.daemon = False
     def start(self): self.alive = True
     def join(self): self.alive = False
     def is_alive(self): return self.alive
 
-clck_gen.threading = types.SimpleNamespace(Thread=FakeThread, Event=threading.Event)
+# USE_WORKER = True: the REAL CLCKGen._worker loop runs in an OS thread of its own, in lock step with the harness:
+# the generator's breaker (threading.Event inside clck_gen) is replaced by StepEvent, whose wait() parks the worker
+# until the harness releases exactly one iteration (op `T`) or stop() sets it.  Harness and worker never run at the
+# same time, so a history is deterministic; what the worker caches across iterations is what the real thread caches.
+USE_WORKER = True
+
+class StepEvent:
+    def __init__(self):
+        self.flag = False
+        self.go = threading.Semaphore(0)
+        self.parked = threading.Semaphore(0)
+    def wait(self, timeout=None):
+        self.parked.release()
+        self.go.acquire()
+        return self.flag
+    def set(self):
+        self.flag = True
+        self.go.release()
+    def clear(self): self.flag = False
+    def is_set(self): return self.flag
+
+class StepThread:
+    def __init__(self, target=None):
+        self.daemon = False
+        self.exc = None
+        self.target = target
+        self.breaker = target.__self__._breaker
+        self.t = threading.Thread(target=self._run, daemon=True)
+    def _run(self):
+        try:
+            self.target()
+        except BaseException as e:      # the clock thread dies: remembered, reported by the op that caused it
+            self.exc = e
+        finally:
+            self.parked_or_dead()
+    def parked_or_dead(self):
+        self.breaker.parked.release()
+    def start(self):
+        self.t.start()
+        self.breaker.parked.acquire()   # until the worker waits for its first tick (or is dead)
+    def join(self):
+        self.t.join()
+        # the dying worker released `parked` once more: consume it
+        self.breaker.parked.acquire()
+    def is_alive(self): return self.t.is_alive()
+
+def _mk_thread(group=None, target=None, name=None, args=(), kwargs=None, daemon=None):
+    # the signature of threading.Thread: whatever form of the constructor call the code uses is accepted
+    if args or kwargs:
+        import functools
+        target = functools.partial(target, *args, **(kwargs or {}))
+        target.__self__ = target.func.__self__
+    t = StepThread(target) if USE_WORKER else FakeThread(target)
+    t.name = name
+    if daemon is not None:
+        t.daemon = daemon
+    return t
+
+def _mk_event():
+    return StepEvent() if USE_WORKER else threading.Event()
+
+def worker_tick(gen):
+    """one iteration of the real _worker loop: wait() returns False, send_clck_ind(), next wait()"""
+    th = gen._thread
+    br = gen._breaker
+    br.go.release()
+    br.parked.acquire()
+    if th.exc is not None:
+        # the clock thread died in this tick (what threading's excepthook would print): report it and go on with a
+        # fresh worker on the same counter, as the direct-call harness did (clck_src is not incremented by a failed tick)
+        exc, th.exc = th.exc, None
+        th.t.join()
+        gen._thread = StepThread(gen._worker)
+        gen._thread.start()
+        raise exc
+
+clck_gen.threading = types.SimpleNamespace(Thread=_mk_thread, Event=_mk_event)
+clck_gen.time = types.SimpleNamespace(monotonic_ns=lambda: 0)
 ctrl_if.time = types.SimpleNamespace(sleep=lambda s: None)
 
 class Draw:
@@ -81,17 +157,22 @@ fake_trx.random = types.SimpleNamespace(randint=Draw.randint)
 fake_pm.randint = Draw.randint
 
 class StaleCounter(logging.Handler):
+    """counts the reports of stale bursts.  The report is recognised by what it is about, not by its exact wording or level:
+    a log record emitted by Transceiver.clck_tick, or any record whose text speaks of a 'stale' message."""
     n = 0
     def emit(self, rec):
         try:
-            if "Stale TRXD message" in rec.getMessage():
+            if rec.funcName == "clck_tick" and rec.module == "transceiver":
+                if rec.levelno >= logging.INFO or "stale" in rec.getMessage().lower():
+                    StaleCounter.n += 1
+            elif rec.levelno >= logging.INFO and "stale" in rec.getMessage().lower():
                 StaleCounter.n += 1
         except Exception:
             pass
 
 root = logging.getLogger()
 root.handlers[:] = [StaleCounter()]
-root.setLevel(logging.WARNING)
+root.setLevel(logging.INFO)     # DEBUG would make every log.debug() of the toolkit build a record
 
 # optional trace of routing decisions (oracle mode only; never compared with the model):
 # every FakeTRX.handle_data_msg(self, src_trx, src_msg, msg) call is recorded as call:<dst>:<src>:<fn>
@@ -119,21 +200,26 @@ if TRACE:
 
 # ---------------------------------------------------------------- world
 def build(extra):
-    app = Application.__new__(Application)
-    app.argv = types.SimpleNamespace(trx_bind_addr=BIND, bts_addr=ADDR["a"], bb_addr=ADDR["b"],
-                                     bts_base_port=5700, bb_base_port=6700, sched_rr_prio=None)
-    # mirrors Application.__init__ (fake_trx.py) without argv/signal/logging set-up
-    app.trx_list = TRXList()
-    app.clck_gen = CLCKGen([], sched_rr_prio=None)
-    app.clck_gen.clck_handler = app.clck_handler
-    app.fake_pm = FakePM(*APPINIT["fake_pm_args"])
-    app.fake_pm.trx_list = app.trx_list
-    app.append_trx(app.argv.bts_addr, app.argv.bts_base_port, **APPINIT["append_trx_kwargs"][0])
-    app.append_trx(app.argv.bb_addr, app.argv.bb_base_port, **APPINIT["append_trx_kwargs"][1])
+    """the REAL Application.__init__ (fake_trx.py) builds the world from a command line: argument parsing with all its
+    defaults, the shared clock generator, FakePM, BTS and MS, the --trx definitions, the burst forwarder.  Environment
+    replaced: signal handlers, the copyright banner and the logging set-up."""
+    argv = ["fake_trx.py", "-b", BIND, "-R", ADDR["a"], "-r", ADDR["b"], "-P", "5700", "-p", "6700"]
     for (addr, port, idx) in extra:
-        app.append_child_trx(ADDR[addr], port, name=None, child_idx=idx)
-    app.burst_fwd = BurstForwarder(app.trx_list.trx_list)
+        argv += ["--trx", "%s:%d/%d" % (ADDR[addr], port, idx)]
+    old = sys.argv
+    sys.argv = argv
+    try:
+        try:
+            app = Application()
+        except SystemExit as e:
+            raise RuntimeError("fake_trx refused its command line (exit %s)" % e.code)
+    finally:
+        sys.argv = old
     return app
+
+fake_trx.signal = types.SimpleNamespace(signal=lambda *a: None, SIGINT=2)
+Application.app_print_copyright = lambda self, *a, **k: None
+Application.app_init_logging = lambda self, *a, **k: None
 
 def hexs(b):
     return b.hex() if len(b) else "-"
@@ -163,7 +249,8 @@ def state(app):
     trxs = app.trx_list.trx_list
     for t in trxs:
         fh = "N" if t.fh is None else "%s/%s/%d" % (t.fh.hsn, t.fh.maio, len(t.fh.ma))
-        q = "/".join(str(m.fn) for m in t._tx_queue) or "-"
+        # an element that is not a message (no .fn) is shown by its type name: the state stays readable
+        q = "/".join(str(getattr(m, "fn", "<%s>" % type(m).__name__)) for m in t._tx_queue) or "-"
         parts.append(" ".join([
             "R%d" % int(t.running), fmt_opt(t._rx_freq), fmt_opt(t._tx_freq), fh,
             "v%d" % t.data_if._hdr_ver, "m%d" % int(t.rf_muted), "ta%s" % t.ta,
@@ -227,7 +314,10 @@ def run_line(line):
                 trx.recv_data_msg()
             elif t[0] == "T":
                 if app.clck_gen.running:
-                    app.clck_gen.send_clck_ind()
+                    if USE_WORKER:
+                        worker_tick(app.clck_gen)
+                    else:
+                        app.clck_gen.send_clck_ind()
             elif t[0] == "J":
                 if app.clck_gen.running:
                     app.clck_gen.clck_src = int(t[1])
@@ -237,7 +327,10 @@ def run_line(line):
         except Exception as e:
             exc = e
         res.append(obs(exc))
-    return " ; ".join(res) + " | " + ports(app) + " | " + state(app)
+    out = " ; ".join(res) + " | " + ports(app) + " | " + state(app)
+    if USE_WORKER and app.clck_gen._thread is not None:
+        app.clck_gen.stop()           # do not leave a parked OS thread behind
+    return out
 
 def main():
     for line in sys.stdin:
